@@ -22,6 +22,7 @@ from pyvc.core import Builtin
 from . import frames
 
 G = 'propka.group.Group'
+CC = 'propka.conformation_container.ConformationContainer'
 
 
 def mkdet(repo, name, group=None, label=None):
@@ -474,9 +475,33 @@ WRITERS = {
 }
 
 
+def task_add_atom(pr, repo):
+    """CH: the determinant table walks the chain list of the conformation (SEC) - every atom added to a conformation, whatever its
+    record type, has its chain in that list afterwards (once), so the groups of a ligand or ion with a chain of its own get their rows."""
+    ex = Executor(repo)
+    fi = repo.func(CC + '.add_atom')
+    pr.under_contract(fi)
+    A = repo.cls('propka.atom.Atom')
+    for typ in ('atom', 'hetatm'):
+        for el in ('C', 'H'):
+            for chain, before in (('L', ['A']), ('A', ['A']), ('_', []), ('B', ['A', 'C'])):
+                def thunk(ex, ctx, typ=typ, el=el, chain=chain, before=before):
+                    conf = record('conf', repo.cls(CC), atoms=[record('old', A, chain_id='A')], chains=list(before), molecular_container=record('mol', None))
+                    at = record('at', A, type=typ, element=el, chain_id=chain, conformation_container=None, molecular_container=None,
+                                res_name='LIG', name=el + '1')
+                    ex.call_function(fi, [at], self_obj=conf)
+                    ch = conf.attrs['chains']
+                    ctx.oblige('CH[%s %s, chain %r, chains before %r]: the atom is appended once, its chain is in the chain list exactly '
+                               'once, the chains listed before keep their place' % (typ, el, chain, before),
+                               conf.attrs['atoms'][-1] is at and len(conf.attrs['atoms']) == 2 and ch.count(chain) == 1
+                               and ch[:len(before)] == before and len(ch) == len(before) + (chain not in before)
+                               and at.attrs['conformation_container'] is conf)
+                pr.explore(ex, thunk, 'add_atom %s %s %s' % (typ, el, chain))
+
+
 def run(pr, repo):
     pr.parallel([(task_total, ()), (task_sequencing, ()), (task_swap, ()), (task_swap_once, ()), (task_average, ()),
-                 (task_render, ()), (task_sections, ()), (average_task, (2,)), (average_twins_task, ()), (write_pka_task, ())])
+                 (task_render, ()), (task_sections, ()), (average_task, (2,)), (average_twins_task, ()), (write_pka_task, ()), (task_add_atom, ())])
     for f, allowed in WRITERS.items():
         frames.clause(pr, repo, 'writers of .%s are the declared ones' % f, f, 'writers', allowed)
     pr.assumptions += ['A-REAL: float sums re-associate; the numeric text of the .pka rows (2 decimals) is checked by the '
